@@ -79,7 +79,27 @@ pub fn shapes(n: usize, alphabet: &[u64]) -> Vec<Shape> {
 }
 
 pub fn build_tree(sc: &uni::Scratch, shape: &Shape) -> Tree {
+	build_tree_lifted(sc, shape, 0)
+}
+
+/// `lift` blocks p1..pN of difficulty 1 below the shape (12: version-5 headers throughout)
+pub fn build_tree_lifted(sc: &uni::Scratch, shape: &Shape, lift: usize) -> Tree {
 	let mut tb = TreeBuilder::new(sc, 7, true);
+	let mut base = None;
+	for i in 1..=lift {
+		base = Some(tb.add_with_difficulty(&format!("p{}", i), base, &uni::BlockSpec::empty(200 + i as u32), 1));
+	}
+	if lift > 0 {
+		for i in 0..shape.parents.len() {
+			let name = format!("b{}d{}", i, shape.diffs[i]);
+			let parent = match shape.parents[i] {
+				None => base,
+				Some(k) => Some(k + lift),
+			};
+			tb.add_with_difficulty(&name, parent, &uni::BlockSpec::empty(10 + i as u32), shape.diffs[i]);
+		}
+		return tb.finish();
+	}
 	for i in 0..shape.parents.len() {
 		let name = format!("b{}d{}", i, shape.diffs[i]);
 		tb.add_with_difficulty(
@@ -307,6 +327,34 @@ fn skip_pow(tier: Tier, shard: usize, n: usize) -> Report {
 		}
 		let _ = std::fs::remove_dir_all(&ex.base);
 	}
+	if tier == Tier::Thorough {
+		// the depth-3 fork family once more on top of 12 blocks (version-5 headers throughout)
+		for code in 0..16usize {
+			if !mine(1000 + code as u64, shard, n) {
+				continue;
+			}
+			let d = |k: usize| if (code >> k) & 1 == 1 { 3 } else { 1 };
+			let shape = Shape { parents: vec![None, None, Some(1), Some(2)], diffs: vec![d(0), d(1), d(2), d(3)] };
+			let tree = build_tree_lifted(&sc, &shape, 12);
+			let inst = format!("skip_pow+12:{}", canon(&shape, None));
+			let twin = twin_fp(&sc, &tree, Options::SKIP_POW);
+			let mut inv = Inv03 { inst: inst.clone(), twin, finals: BTreeSet::new() };
+			let is_lift = |i: usize| tree.blocks[i].name.starts_with('p');
+			let prelude: Vec<Ev> = (0..tree.blocks.len()).filter(|i| is_lift(*i)).map(Ev::B).collect();
+			let mut ex = Explorer::with_prelude(&tree, &sc, Options::SKIP_POW, &inst, &prelude);
+			let nb = tree.blocks.len();
+			let mut evs: Vec<Ev> = (0..nb).filter(|i| !is_lift(*i)).map(Ev::B).collect();
+			let leaves: Vec<usize> = (0..nb).filter(|i| !is_lift(*i) && !tree.blocks.iter().any(|b| b.parent == Some(*i))).collect();
+			for l in leaves {
+				evs.push(Ev::HS(l));
+			}
+			ex.explore(&evs, &mut inv, &mut rep);
+			if inv.finals.len() > 1 {
+				rep.violation("quiescence:order-dependent", format!("{} distinct final best-chain states over the delivery orders of one universe", inv.finals.len()), json!({"instance": inst}));
+			}
+			let _ = std::fs::remove_dir_all(&ex.base);
+		}
+	}
 	rep
 }
 
@@ -392,6 +440,18 @@ pub fn replay_history(case: &Value) -> Result<String, String> {
 		let all = shapes(4, &[1, 2, 3, 4]);
 		let shape = all.iter().find(|s| canon(s, None) == c).ok_or("unknown instance")?;
 		build_tree(&sc, shape)
+	} else if let Some(c) = inst.strip_prefix("skip_pow+12:") {
+		let all: Vec<Shape> = (0..16usize)
+			.map(|code| {
+				let d = |k: usize| if (code >> k) & 1 == 1 { 3 } else { 1 };
+				Shape { parents: vec![None, None, Some(1), Some(2)], diffs: vec![d(0), d(1), d(2), d(3)] }
+			})
+			.collect();
+		let shape = all.iter().find(|s| canon(s, None) == c).ok_or("unknown instance")?;
+		let tree = build_tree_lifted(&sc, shape, 12);
+		let mut evs: Vec<Value> = (1..=12).map(|i| json!(format!("B(p{})", i))).collect();
+		evs.extend(case["events"].as_array().cloned().unwrap_or_default());
+		return crate::chainx::replay_events(&tree, &json!({"events": evs}), Options::SKIP_POW, &sc);
 	} else {
 		return Ok(format!("instance {} is rebuilt by its engine part; re-run the part to reproduce", inst));
 	};
